@@ -283,6 +283,7 @@ def _hook_tail(chk, ix, R, terms):
     run_json_and_coverage(chk, ix, R, terms)
     run_order_discipline(chk, ix, R)
     run_field_coverage(chk, ix, R, terms)
+    run_fixup(chk, ix)
 
 
 def last_token(seq):
@@ -705,3 +706,31 @@ def run_field_coverage(chk: Check, ix, R, terms) -> None:
             else:
                 r5.info(key, f.loc(), "same keys")
         chk.extra["exportjson_siblings"] = n_sib
+
+
+def run_fixup(chk: Check, ix) -> None:
+    from ..matrix import coverage, reads_of_param
+    r6 = chk.rule("R11.6", "fix-up covers what was serialized by reference: TypeFixer reaches every type-valued field (matrix row) and the by-name references (Instance.type_ref, TypeAliasType.type_ref, TypeInfo._mro_refs) are re-linked", floor=25)
+    tf = ix.cls("mypy.fixup.TypeFixer")
+    for (cn, fld), (ok, where) in sorted(coverage(ix, tf).items()):
+        key = f"TypeFixer x {cn}.{fld}"
+        if ok:
+            r6.ok(key, where)
+        else:
+            r6.violation(key, where, f"TypeFixer does not descend into {cn}.{fld}: an Instance nested there keeps type == NOT_READY after loading from the cache")
+    for meth, ref, target in (("visit_instance", "type_ref", "type"), ("visit_type_alias_type", "type_ref", "alias")):
+        m = tf.lookup_method(meth)
+        if m is None:
+            raise AnalysisError(f"TypeFixer.{meth} vanished")
+        reads = reads_of_param(ix, m)
+        assigns = {t.attr for n in ast.walk(m.node) if isinstance(n, ast.Assign) for t in n.targets if isinstance(t, ast.Attribute)}
+        if ref in reads and target in assigns:
+            r6.ok(f"TypeFixer.{meth}: {target} re-linked from {ref}", m.loc())
+        else:
+            r6.violation(f"TypeFixer.{meth}: {target} re-linked from {ref}", m.loc(), f"the reference stored by name ({ref}) is not resolved back into `{target}`")
+    nf = ix.cls("mypy.fixup.NodeFixer").lookup_method("visit_type_info")
+    src = norm(nf.node)
+    if "_mro_refs" in src and "info.mro = " in src:
+        r6.ok("NodeFixer.visit_type_info: mro re-linked from _mro_refs", nf.loc())
+    else:
+        r6.violation("NodeFixer.visit_type_info: mro re-linked from _mro_refs", nf.loc(), "the MRO stored by name is not resolved after load")
